@@ -24,6 +24,7 @@ type c06Config struct {
 }
 
 var c06Earlier bool
+var c06EarlierSame bool
 
 func c06Client(d *vDriver, id uint32, protoLen int) (*uhppote, c06Config) {
 	cfg := c06Config{
@@ -58,6 +59,16 @@ func c06Client(d *vDriver, id uint32, protoLen int) (*uhppote, c06Config) {
 	}
 	if cfg.bcastValid {
 		u.broadcastAddr = types.BroadcastAddrFrom(netip.AddrFrom4([4]byte{cfg.bip[0], cfg.bip[1], cfg.bip[2], cfg.bip[3]}), cfg.bport)
+	}
+	if c06EarlierSame {
+		// earlier calls on this client that mention other addresses and succeed: the controller is told to
+		// take another IP address (it does not reply), the event listener address is set, a discovery runs -
+		// where later requests go is still what was configured
+		saved := *d
+		d.err, d.reply = nil, nil
+		u.SetAddress(id, []byte{nondetU8("newip.a"), nondetU8("newip.b"), nondetU8("newip.c"), nondetU8("newip.d")}, []byte{255, 255, 255, 0}, []byte{192, 168, 1, 1})
+		u.GetDevices()
+		*d = saved
 	}
 	return u, cfg
 }
@@ -137,6 +148,14 @@ func VerifC06_GetDevices() {
 func VerifC06_AfterOtherClient() {
 	c06Earlier = true
 	defer func() { c06Earlier = false }()
+	c06GetTime(3)
+}
+
+// the same after earlier successful calls on the same client (set-ip with another address, discovery): the
+// configured endpoint is not rewritten
+func VerifC06_AfterSetAddress() {
+	c06EarlierSame = true
+	defer func() { c06EarlierSame = false }()
 	c06GetTime(3)
 }
 
